@@ -36,7 +36,7 @@ const (
 	// RECORDED primary's certificate (same common name => same object name) replaces that certificate object with the
 	// new key's certificate before the manifest is written; a fault between the two leaves the recorded primary with
 	// another key's certificate. While false such cases are generated and counted but not judged.
-	judgeSharedCertObject = false
+	judgeSharedCertObject = true
 )
 
 // serial modes of an attempt
